@@ -601,7 +601,7 @@ func (e *SignatureAlgorithmsCertExtension) Write(b []byte) (int, error) {
 }
 
 func (e *SignatureAlgorithmsCertExtension) writeToUConn(uc *UConn) error {
-	uc.HandshakeState.Hello.SupportedSignatureAlgorithms = e.SupportedSignatureAlgorithms
+	uc.HandshakeState.Hello.SupportedSignatureAlgorithmsCert = e.SupportedSignatureAlgorithms
 	return nil
 }
 
